@@ -131,6 +131,11 @@ def run(ck):
     params_flush(ck, P)
     from . import c05
     c05.stored_final_block(ck, P)
+    # the statement covers every chunking of the compressed stream: a suspension in the decoder must not lose or skip anything
+    from . import c04 as _c04, c08 as _c08
+    _c04.resume_atomicity(ck, P)
+    _c04.handover_after_suspension(ck, P)
+    _c08.checksum_update_guard(ck, P)
     # the decoder's match copy replicates overlapping matches (distance < length) byte by byte
     from .. import decoders
     ck.floor("WHO/overlap-safe-copy", decoders.overlap_safe(ck, P, "WHO/overlap-safe-copy", r"inflate::writer::Writer::copy_match_help$"), 1)
